@@ -147,14 +147,16 @@ fn parse_inline_tag(tokens: &[Token]) -> Option<usize> {
 
     let mut cursor = 3;
 
-    while !matches!(
-        tokens.get(cursor),
-        Some(Token {
-            kind: TokenKind::Punctuation(Punctuation::CloseCurly),
-            ..
-        })
-    ) {
-        cursor += 1;
+    loop {
+        match tokens.get(cursor) {
+            Some(Token {
+                kind: TokenKind::Punctuation(Punctuation::CloseCurly),
+                ..
+            }) => break,
+            Some(_) => cursor += 1,
+            // The tag is never closed, so it is not a tag.
+            None => return None,
+        }
     }
 
     Some(cursor + 1)
